@@ -222,6 +222,18 @@ def evaluate(vec, r, props, style=0, morph_from=None, huge=False, chan_zero=None
         return [(f"{p}:valid_block_refused", f"{type(x).__name__}: {x}") for p in ("C01", "C06") if p in props]
     if "C06" in props and enc != exp:
         out.append(("C06:bytes_differ", f"first difference at byte {first_diff(enc, exp)} of {len(enc)}/{len(exp)}"))
+    if "C06" in props and kind != "Entry":
+        # the converse: the layout-conformant bytes (the specification's, not the library's own)
+        # decode to the values they were packed from
+        try:
+            dexp, pexp = ab.decode(kind, fmt, exp)
+            bexp = ab.alpha(kind, fmt, dexp, vals)
+            if bexp != b:
+                out.append(("C06:decoded_values_differ", _where(b, bexp)))
+            elif pexp != len(exp):
+                out.append(("C06:decoded_values_differ", f"decoder stopped at {pexp} of {len(exp)}"))
+        except Exception as x:  # noqa: BLE001
+            out.append(("C06:decode_failed", f"layout-conformant bytes are not decoded: {type(x).__name__}: {x}"))
     if kind == "Entry":
         if "C06" in props or "C01" in props:
             dec, pos = ab.decode(kind, fmt, enc, b"\xAA" * 7)
@@ -304,6 +316,18 @@ def evaluate(vec, r, props, style=0, morph_from=None, huge=False, chan_zero=None
                 out.append(("C14:equal_content_unequal", "a block is unequal to an identically built one"))
             if not (obj == dec) or not (dec == obj):
                 out.append(("C14:roundtrip_unequal", "a block is unequal to the decode of its own encoding"))
+            if kind == "Events" and b["events"]:
+                # the same events given as float64 arrays whose values are NOT float32 numbers (they differ from
+                # the stored value by less than the on-disk precision): same bytes, equal to the round trip
+                from basictdf.tdfEvents import Event, EventsDataType, TemporalEventsData, TemporalEventsDataFormat
+                o2 = TemporalEventsData(TemporalEventsDataFormat(fmt), vals.flt("f32", b["startTime"]))
+                for e in b["events"]:
+                    v64 = np.array([np.float64(vals.flt("f32", x)) * (1.0 + 2.0 ** -31) for x in e["values"]], dtype="<f8")
+                    o2.events.append(Event(vals.text(e["label"], 256), v64, EventsDataType(e["type"])))
+                if ab.encode(o2) == enc:
+                    d2, _ = ab.decode(kind, fmt, enc)
+                    if not (o2 == d2) or not (d2 == o2) or not (o2 == obj):
+                        out.append(("C14:roundtrip_unequal", "an events block given as float64 arrays is unequal to the decode of its own encoding"))
         except Exception as x:  # noqa: BLE001
             out.append(("C14:equal_content_unequal", f"{type(x).__name__}: {x}"))
         for m in vec.get("mutants", []):
@@ -460,6 +484,54 @@ def boundary_texts(run, vecs):
     return n
 
 
+def file_dontcare(run, vecs, seed, limit):
+    """C12, file part: two files that differ only in bytes the format leaves undefined inside a block
+    have equal content - through every way of asking: ==, !=, the block lists, lookup by type"""
+    import os
+    from basictdf import Tdf
+    from . import refio
+    work = common.scratch()
+    pa, pb = os.path.join(work, "dcA.tdf"), os.path.join(work, "dcB.tdf")
+    n = 0
+    picked = [v for v in vecs if v["kind"] in ab.BLOCK_KINDS][seed % 5::max(1, len(vecs) // limit)]
+    for vec in picked[:limit]:
+        kind, fmt, b, toks = vec["kind"], vec["fmt"], vec["b"], vec["toks"]
+        vals = Values(seed)
+        spans = ab.dontcare_spans(toks, vals)
+        if not spans:
+            continue
+        try:
+            blk = ab.gamma(kind, fmt, b, vals, 0)
+            for pth in (pa, pb):
+                if os.path.exists(pth):
+                    os.unlink(pth)
+            with Tdf.new(pa).allow_write() as f:
+                f.add_block(blk)
+            raw = bytearray(open(pa, "rb").read())
+            off = refio.parse(bytes(raw)).table[0]["offset"]
+            for name, fn in list(SCRAMBLERS.items())[:2]:
+                sc = bytearray(raw)
+                for (a, z) in spans:
+                    sc[off + a:off + z] = fn(z - a)
+                open(pb, "wb").write(bytes(sc))
+                n += 1
+                with Tdf(pa) as x, Tdf(pb) as y:
+                    verdicts = dict(eq=bool(x == y), eq_rev=bool(y == x), ne=not bool(x != y), blocks=bool(x.blocks == y.blocks),
+                                    lookup=bool(x.get_block(0) == y.get_block(0)))
+                wrong = [k for k, v in verdicts.items() if not v]
+                if wrong and len(run.violations) < 5:
+                    run.violation(f"C12:content_depends_on_dontcare two files holding the same {kind} block, differing only in undefined bytes "
+                                  f"(garbage {name}), differ according to {wrong}", dict(kind="codec-file-dontcare", vector=vec))
+        except Exception as x:  # noqa: BLE001
+            if len(run.violations) < 5:
+                run.violation(f"C12:content_depends_on_dontcare file comparison raises {type(x).__name__}: {x} ({kind})",
+                              dict(kind="codec-file-dontcare", vector=vec))
+    for pth in (pa, pb):
+        if os.path.exists(pth):
+            os.unlink(pth)
+    return n
+
+
 def file_equality(run, vecs, seed, limit):
     """C14, file part: two files compare equal exactly when version, slot count and block lists do"""
     import os
@@ -479,11 +551,11 @@ def file_equality(run, vecs, seed, limit):
             raw = bytearray(open(path, "rb").read())
             _st.pack_into("<I", raw, 16, version)
             if slots != 14:
-                # same blocks in a table with more slots: rebuild through refio
+                # same blocks in a table with more (or fewer) slots: rebuild through refio
                 from . import refio
                 p = refio.parse(bytes(raw))
                 shift = 288 * (slots - 14)
-                ents = [dict(e, offset=e["offset"] + shift) for e in p.table]
+                ents = [dict(e, offset=e["offset"] + shift) for e in p.table][:slots]
                 ents += [dict(type=0, format=0, offset=len(raw) + shift, size=0)] * (slots - 14)
                 raw = bytearray(refio.build_file(slots, ents, bytes(raw[64 + 288 * 14:]), version=version))
             open(path, "wb").write(bytes(raw))
@@ -536,6 +608,17 @@ def file_equality(run, vecs, seed, limit):
                 run.violation(f"C14:{'equal_files_unequal' if not before else 'different_files_equal'} the same two Tdf objects "
                               f"compared before and after the {kind} block of one file was replaced ({_where(b, m)})",
                               dict(kind="codec-file-eq", vector=vec))
+            # tables without a single unused slot (foreign files have as many slots as blocks)
+            nfull = 1 + len(other)
+            build(pa, [a1] + other, slots=nfull)
+            build(pb, [a2] + other, slots=nfull)
+            g1, g2 = equal(pa, pb)
+            build(pb, [bm] + other, slots=nfull)
+            h1, h2 = equal(pa, pb)
+            n += 2
+            if (not (g1 and g2) or h1 or h2) and len(run.violations) < 5:
+                run.violation(f"C14:{'equal_files_unequal' if not (g1 and g2) else 'different_files_equal'} files whose table is exactly full "
+                              f"({nfull} slots, {kind}: {_where(b, m)})", dict(kind="codec-file-eq", vector=vec))
             build(pa, [a1] + other)
             build(pb, [a2] + other, version=2)
             e1, e2 = equal(pa, pb)
@@ -603,7 +686,7 @@ def real_sized(run, prop, tier, seed, vecs):
             raise common.Machinery(f"layout interpreter decode disagrees with TLC on {vec['kind']} {vec['b']}")
     run.cov["layout_interpreter_cross_validated_on"] = len(vecs)
     count = 45 if tier == "quick" else 450
-    bad, nobs, res = bigdata.random_campaign(seed, count, {prop})
+    bad, nobs, res = bigdata.random_campaign(seed, count, {prop}, limits=prop in ("C01", "C02", "C05", "C06"))
     n += count
     if res is not None:
         run.cov["tlc_runs"].append(dict(name="OBS random large blocks (TdfCodecObs)", observations=nobs, **res.summary()))
@@ -636,7 +719,7 @@ def check(prop, tier, seed, replay=None):
     if replay:
         run.is_replay = True
         rp = json.load(open(replay))["replay"]
-        if rp.get("kind") in ("codec-boundary", "codec-file-eq", "codec-objects"):
+        if rp.get("kind") in ("codec-boundary", "codec-file-eq", "codec-file-dontcare", "codec-objects"):
             return check(prop, "quick", seed)   # these scenarios are cheap: the replay is the quick run itself
         if rp.get("kind") in ("bigblock", "capture", "header"):
             from . import bigdata
@@ -776,6 +859,10 @@ def check(prop, tier, seed, replay=None):
     if prop == "C02":
         n_eval += boundary_texts(run, vecs)
         n_eval += sizes_after_edits(run, tier, seed)
+    if prop == "C12":
+        nd = file_dontcare(run, vecs, seed, 40 if tier == "quick" else 300)
+        run.cov["file_pairs_differing_in_undefined_bytes"] = nd
+        n_eval += nd
     if prop == "C14":
         nf = file_equality(run, vecs, seed, 40 if tier == "quick" else 300)
         run.cov["file_pairs_compared"] = nf
